@@ -15,6 +15,7 @@ Ltac drop_big :=
            | exists _ : _, _ => clear H
            | context [sbind] => clear H
            | context [@pair] => clear H
+           | @eq bool _ _ => clear H
            end
          end.
 Ltac slia := drop_big; lia.
